@@ -1,4 +1,5 @@
 import ServlinVerif.Props.C14
+import ServlinVerif.Props.C04Pipeline
 open Servlin.C14
 #print axioms C14_step_refines
 #print axioms C14_refines_multimap
@@ -7,3 +8,4 @@ open Servlin.C14
 #print axioms C14_legacy_violates
 #print axioms C14_ascii_accepts
 #print axioms C14_ascii_rejects
+#print axioms Servlin.C04P.C14_request_headers
